@@ -477,6 +477,9 @@ func genAcc(g *Gen, w *bufio.Writer) {
 					if k%4 == 3 {
 						n += g.Intn(3) // longer than the field: truncated
 					}
+					if k%4 == 1 && n > 0 {
+						n -= 1 + g.Intn(n) // shorter than the field: the rest of the field keeps its prior contents
+					}
 				}
 				if n < 0 {
 					n = 0
